@@ -79,6 +79,9 @@ def run(res, ctx):
                      "subprocess.Popen('ls *',  # nosec B602\n                 shell=True)  # nosec B607\n"
                      "subprocess.check_output('tar x',  # nosec\n                        shell=True)  # nosec B404\n", ["nosec_pairs"]))
     programs.append(("import pickle, subprocess\nimport os, telnetlib\nx = 1\n", ["import_multi2"]))
+    # a module bound dynamically and called through that name: what the blacklist check learns from the binding call must not change what the shell checks see
+    # (seeded change C05-m12 let the blacklist check write `sp -> subprocess` into the visitor's alias table: B602/B604 then depended on a blacklist id being selected)
+    programs.append(("import importlib\nsp = importlib.import_module('subprocess')\nsp.Popen(cmd, shell=True)\npk = __import__('pickle')\npk.loads(b)\nhl = importlib.import_module('hashlib')\nhl.md5(d)\n", ["dynamic_binding"]))
     programs.append(("import subprocess as sp\nfrom subprocess import Popen\nimport pickle\nfrom hashlib import md5\nfrom flask import Flask\n"
                      "sp.Popen(cmd, shell=True)\nPopen(cmd, shell=True)\npickle.loads(b)\nmd5(d)\napp.run(debug=True)\nassert x\n", ["alias_mix"]))
     scratch = C.Scratch()
@@ -177,6 +180,10 @@ def run(res, ctx):
         for i, (src, _) in enumerate(programs):
             with open(_os.path.join(pdir, "p%02d.py" % i), "w") as fh:
                 fh.write(src)
+        # a file that is not valid Python 3 but holds a bidirectional control character: skipped in every run, whatever is selected (seeded change C05-m11 only
+        # parsed a file when some selected test needs the tree: under `-t B613` the file was no longer skipped and B613 reported in it)
+        with open(_os.path.join(pdir, "zz_python2.py"), "w") as fh:
+            fh.write("print 'legacy'  # \u202e hidden\nimport pickle\n")
 
         def cli_findings(argv):
             r = C.run_cli(argv + ["-f", "json", "-q", "-r", pdir])
@@ -222,7 +229,7 @@ def run(res, ctx):
 
         carrier_sels = [(k, i, e) for (k, i, e) in sels if (i | e) <= known_ids and not (i & e) and (i or e)]
         carrier_sels = carrier_sels if thorough else carrier_sels[:7]
-        carrier_sels += [("two_part_include", {"B101", "B602"}, set()), ("three_part_include", {"B101", "B301", "B404", "B605"}, {"B602"}), ("two_part_skip", set(), {"B101", "B404", "B603"})]
+        carrier_sels += [("only_file_level", {"B613"}, set()), ("file_level_and_one", {"B613", "B101"}, set()), ("two_part_include", {"B101", "B602"}, set()), ("three_part_include", {"B101", "B301", "B404", "B605"}, {"B602"}), ("two_part_skip", set(), {"B101", "B404", "B603"})]
         for kind, inc, exc in carrier_sels:
             S = spec_filter(inc, exc, plug, bl, builtin)
             expect = None if base_f is None else [f for f in base_f if f[1] in S]
